@@ -15,6 +15,7 @@
 //	prov <tau> <STATE> <EPS>             accumulation.Provide                          output: <state dump>
 //
 //	STATE = S <n> { <sid> <np> {<hash> <blob>}*np <nl> {<hash> <len> <slots>}*nl }*n       (STATE1: exactly one service)
+//	a blob token "~" is the nil byte slice (what the codec yields for a zero-length blob), "-" the empty non-nil slice
 //	KVS   = K <n> {<key31> <value>}*n          EPS = E <n> {<requester> <blob>}*n       slots = a,b,c | -
 //
 // state dump: services by ascending id  "<sid>{P<hash>=<blob>,...}{L<hash>/<len>=<slots>,...}" entries sorted as strings.
@@ -63,6 +64,20 @@ func parseSlots(tok string) types.TimeSlotSet {
 	return out
 }
 
+// blobTok / parseBlob: "-" is the empty non-nil byte slice, "~" the nil slice (what the codec yields for a zero-length blob)
+func blobTok(b []byte, nilIfEmpty bool) string {
+	if len(b) == 0 && nilIfEmpty {
+		return "~"
+	}
+	return h.Hex(b)
+}
+func parseBlob(tok string) types.ByteSequence {
+	if tok == "~" {
+		return nil
+	}
+	return types.ByteSequence(h.UnHex(tok))
+}
+
 type lrec struct {
 	hash  []byte
 	ln    uint64
@@ -85,7 +100,7 @@ func stateTok(ss []svc) string {
 	for _, s := range ss {
 		fmt.Fprintf(&b, " %d %d", s.id, len(s.p))
 		for _, e := range s.p {
-			fmt.Fprintf(&b, " %s %s", h.Hex(e[0]), h.Hex(e[1]))
+			fmt.Fprintf(&b, " %s %s", h.Hex(e[0]), blobTok(e[1], (s.id+uint64(len(s.l)))%2 == 0))
 		}
 		fmt.Fprintf(&b, " %d", len(s.l))
 		for _, e := range s.l {
@@ -106,7 +121,7 @@ func epsTok(es []ep) string {
 	var b strings.Builder
 	fmt.Fprintf(&b, "E %d", len(es))
 	for _, e := range es {
-		fmt.Fprintf(&b, " %d %s", e.req, h.Hex(e.blob))
+		fmt.Fprintf(&b, " %d %s", e.req, blobTok(e.blob, (e.req+uint64(len(es)))%2 == 0))
 	}
 	return b.String()
 }
@@ -147,7 +162,7 @@ func (r *reader) state() types.ServiceAccountState {
 		np := h.I(r.next())
 		for j := 0; j < np; j++ {
 			hs := h32(h.UnHex(r.next()))
-			a.PreimageLookup[hs] = types.ByteSequence(h.UnHex(r.next()))
+			a.PreimageLookup[hs] = parseBlob(r.next())
 		}
 		nl := h.I(r.next())
 		for j := 0; j < nl; j++ {
@@ -180,7 +195,7 @@ func (r *reader) eps() types.PreimagesExtrinsic {
 	out := types.PreimagesExtrinsic{}
 	for i := 0; i < n; i++ {
 		req := types.ServiceID(h.U(r.next()))
-		out = append(out, types.Preimage{Requester: req, Blob: types.ByteSequence(h.UnHex(r.next()))})
+		out = append(out, types.Preimage{Requester: req, Blob: parseBlob(r.next())})
 	}
 	return out
 }
@@ -230,7 +245,11 @@ func copyState(d types.ServiceAccountState) types.ServiceAccountState {
 	for id, a := range d {
 		na := types.ServiceAccount{ServiceInfo: a.ServiceInfo, PreimageLookup: types.PreimagesMapEntry{}, LookupDict: types.LookupMetaMapEntry{}, StorageDict: types.Storage{}}
 		for k, v := range a.PreimageLookup {
-			na.PreimageLookup[k] = append(types.ByteSequence{}, v...)
+			if v == nil {
+				na.PreimageLookup[k] = nil
+			} else {
+				na.PreimageLookup[k] = append(types.ByteSequence{}, v...)
+			}
 		}
 		for k, v := range a.LookupDict {
 			na.LookupDict[k] = append(types.TimeSlotSet{}, v...)
@@ -445,7 +464,7 @@ func incSlots(rng *h.Rng, n int, around uint64) []uint64 {
 }
 
 var statuses = []string{"solicited", "provided", "forgotten", "reavailable", "raw-solicited", "raw-nonempty", "absent",
-	"wrong-length", "stored-but-empty-record", "raw-solicited-but-stored", "long-record", "stored-no-record"}
+	"wrong-length", "stored-but-empty-record", "raw-solicited-but-stored", "long-record", "stored-no-record", "raw-odd-value"}
 
 // genState builds services over the blob pool; returns the per (service, blob) status for the statistics
 func genState(rng *h.Rng, blobs [][]byte, tau uint64, st h.Stats, consistentOnly bool) ([]svc, []kv) {
@@ -467,7 +486,7 @@ func genState(rng *h.Rng, blobs [][]byte, tau uint64, st h.Stats, consistentOnly
 			}
 			hs := blake(b)
 			ln := uint64(len(b))
-			w := []int{5, 3, 2, 2, 4, 1, 3, 1, 1, 1, 1, 1}
+			w := []int{5, 3, 2, 2, 4, 1, 3, 1, 1, 1, 1, 1, 1}
 			if consistentOnly {
 				w[8], w[9] = 0, 0
 			}
@@ -511,6 +530,9 @@ func genState(rng *h.Rng, blobs [][]byte, tau uint64, st h.Stats, consistentOnly
 				s.l = append(s.l, lrec{hs, ln, incSlots(rng, 4, tau)})
 			case "stored-no-record":
 				s.p = append(s.p, [2][]byte{hs, b})
+			case "raw-odd-value": // not the one-byte encoding of the empty record
+				odd := [][]byte{{}, {0, 0}, {0, 1, 2, 3, 4}, {1}, {0, 0, 0, 0, 0}}
+				kvs = append(kvs, kv{lookupKey(id, hs, ln), odd[rng.Intn(len(odd))]})
 			}
 		}
 		ss = append(ss, s)
